@@ -1,4 +1,5 @@
 import J5V.Print.GrammarProofs
+import J5V.Print.ReparseOpts
 import J5V.Print.LayoutProofs
 /-!
 # Reading back what was printed (core only)
@@ -143,10 +144,152 @@ def SimpleValue (f : FieldD) : Prop :=
   f.kind = .value ∧ f.loc.noComments ∧ f.opts = [] ∧ f.label = "" ∧ f.type = "" ∧ IsIdent f.name ∧ f.name ≠ "option" ∧
   f.json = none
 
+/-! ## fields with bracket options (`[a = 1, json_name = "x"]`): read back by evaluation
+
+The lines of such a field are scanned and its bracket is parsed *by evaluation* at line 0 (the checker
+does it for every field); `lineToks_shift` and the frame lemmas of `ReparseOpts` carry the result to the
+line the field is printed on and to whatever follows it. -/
+
+/-- how the type of a field is written -/
+inductive TyW where
+  | plain (abs : Bool) (first : String) (rest : List String)
+  | map (k : String) (abs : Bool) (first : String) (rest : List String)
+
+def TyW.str : TyW → String
+  | .plain a f r => tyStr a f r
+  | .map k a f r => mapTy k a f r
+
+def TyW.toks : TyW → Nat → List PTok
+  | .plain a f r, l => tyToks a f r l
+  | .map k a f r, l => T (.ident "map") l :: T (.sym '<') l :: (tyToks false k [] l ++ T (.sym ',') l ::
+      (tyToks a f r l ++ [T (.sym '>') l]))
+
+def TyW.ok (label : String) : TyW → Prop
+  | .plain a f r => IsIdent f ∧ (∀ x ∈ r, IsIdent x) ∧ (a = false → f ≠ "map") ∧ (label = "" → a = false → kwOk f)
+  | .map k _ f r => label = "" ∧ IsIdent k ∧ IsIdent f ∧ ∀ x ∈ r, IsIdent x
+
+theorem parseField_W (label : String) (hlab : label = "" ∨ label = "repeated " ∨ label = "optional ") (w : TyW)
+    (hw : w.ok label) (name : String) (l : Nat) (tl : List PTok) :
+    parseField (labelToks label l ++ w.toks l ++ T (.ident name) l :: tl) =
+      (fieldTail tl).map (mkField .field l Cm.none label w.str name) := by
+  cases w with
+  | plain a f r =>
+    obtain ⟨hf, _, hmap, hkw⟩ := hw
+    exact parseField_gen label hlab a f r name l tl hf hmap (fun h1 h2 => ⟨(hkw h1 h2).1, (hkw h1 h2).2.1⟩)
+  | map k a f r =>
+    obtain ⟨hl, hk, hf, _⟩ := hw
+    subst hl
+    have e : labelToks "" l = [] := by simp [labelToks]
+    have := parseField_map_gen k a f r name l tl hk hf
+    simp only [TyW.toks, TyW.str, e, List.nil_append, List.cons_append, List.append_assoc] at this ⊢
+    exact this
+
+/-- the tokens before the options: `label type name = number [` -/
+def headToks (f : FieldD) (w : TyW) (l : Nat) : List PTok :=
+  labelToks f.label l ++ w.toks l ++ T (.ident f.name) l :: T (.sym '=') l :: (numToks f.number l ++ [T (.sym '[') l])
+
+theorem sh_T (k : Nat) (t : Grammar.Tok) (l : Nat) : PTok.shift k (T t l) = T t (l + k) := rfl
+
+theorem sh_dotToks (k l : Nat) (r : List String) : sh k (dotToks r l) = dotToks r (l + k) := by
+  induction r with
+  | nil => rfl
+  | cons x xs ih =>
+    simp only [dotToks, List.map_cons, List.flatten_cons, sh_append] at ih ⊢
+    rw [ih]; rfl
+
+theorem sh_tyToks (k l : Nat) (a : Bool) (f : String) (r : List String) : sh k (tyToks a f r l) = tyToks a f r (l + k) := by
+  unfold tyToks
+  rw [sh_append]
+  simp only [sh_cons, sh_T, sh_dotToks]
+  cases a <;> rfl
+
+theorem sh_labelToks (k l : Nat) (label : String) : sh k (labelToks label l) = labelToks label (l + k) := by
+  unfold labelToks
+  split
+  · rfl
+  · split <;> rfl
+
+theorem sh_numToks (k l : Nat) (n : Int) : sh k (numToks n l) = numToks n (l + k) := by
+  unfold numToks
+  split <;> rfl
+
+theorem sh_wToks (k l : Nat) (w : TyW) : sh k (w.toks l) = w.toks (l + k) := by
+  cases w with
+  | plain a f r => exact sh_tyToks k l a f r
+  | map kk a f r =>
+    simp only [TyW.toks, sh_cons, sh_T, sh_append, sh_tyToks, sh_nil]
+
+theorem sh_headToks (k l : Nat) (f : FieldD) (w : TyW) : sh k (headToks f w l) = headToks f w (l + k) := by
+  unfold headToks
+  simp only [sh_append, sh_cons, sh_T, sh_labelToks, sh_wToks, sh_numToks, sh_nil]
+
+/-- the lines of a field without comments -/
+def fieldLines (n : Nat) (f : FieldD) : List String := fieldStyle n f.head (formatInt f.number) f.popts ""
+
+/-- … scanned where the checker scans them: from line 0 -/
+def fieldToks0 (f : FieldD) : List PTok := lexLines (fieldLines 0 f) 0
+
+/-- the tokens after the first `[` -/
+def rdBody (f : FieldD) : List PTok := ((fieldToks0 f).dropWhile (fun t => t.tok != .sym '[')).drop 1
+
+/-- the options between the brackets as the parser reads them, and the line of the closing `;` -/
+def rdRaws (f : FieldD) : List RawOpt × Nat :=
+  match bracketOpts ((rdBody f).length + 1) (rdBody f) with
+  | some (raws, ⟨.sym ';', e, _⟩ :: _) => (raws, e)
+  | _ => ([], 0)
+
+/-- the field as read from line 0 -/
+def rdField0 (f : FieldD) : FieldD :=
+  (mkField .field 0 Cm.none f.label f.type f.name (f.number, (rdRaws f).1, (rdRaws f).2, [])).1
+
+/-- the field as read from line `s` -/
+def rdField (f : FieldD) (s : Nat) : FieldD := shF s (rdField0 f)
+
+/-- a field with bracket options (and / or a custom JSON name), no comments;
+what the scanner and the parser make of its text is part of the hypothesis (decidable: `Cover.optFieldB`) -/
+structure OptField (f : FieldD) : Prop where
+  kind : f.kind = .field
+  loc : f.loc.noComments
+  unl : ∀ o ∈ f.opts, o.hasLoc = false
+  lab : f.label = "" ∨ f.label = "repeated " ∨ f.label = "optional "
+  name : IsIdent f.name
+  nonempty : f.popts ≠ []
+  noch : ∀ l ∈ fieldLines 0 f, ∀ c ∈ l.toList, c ≠ '\n' ∧ c ≠ '/'
+  read : ∃ (w : TyW) (raws : List RawOpt) (e : Nat) (c : Cm), w.ok f.label ∧ f.type = w.str ∧
+    fieldToks0 f = headToks f w 0 ++ rdBody f ∧
+    bracketOpts ((rdBody f).length + 1) (rdBody f) = Option.some (raws, [⟨.sym ';', e, c⟩]) ∧
+    e + 1 = (fieldLines 0 f).length
+  ok : fieldOk f (rdField0 f)
+
+/-- the parser on the tokens of such a field, on any line, before anything -/
+theorem optField_parse (f : FieldD) (h : OptField f) (s : Nat) (more : List PTok) (hm : trailOf more = "") :
+    parseField (sh s (fieldToks0 f) ++ more) = some (rdField f s, more) := by
+  obtain ⟨w, raws, e, c, hw, hty, htoks, hbr, _⟩ := h.read
+  rw [htoks, sh_append, sh_headToks]
+  unfold headToks
+  simp only [List.append_assoc, List.cons_append, List.nil_append, Nat.zero_add]
+  have hp := parseField_W f.label h.lab w hw f.name s
+    (T (.sym '=') s :: (numToks f.number s ++ T (.sym '[') s :: (sh s (rdBody f) ++ more)))
+  simp only [List.append_assoc] at hp
+  rw [hp]
+  have hfr := bracketOpts_frame s more _ _ _ _ hbr ((sh s (rdBody f) ++ more).length + 1)
+    (by simp only [List.length_append, sh_length]; omega)
+  simp only [sh_cons, sh_nil, PTok.shift, List.cons_append, List.nil_append] at hfr
+  rw [fieldTail_bracket f.number s _ _ _ _ _ hfr]
+  simp only [Option.map_some]
+  have hrd : rdRaws f = (raws, e) := by simp only [rdRaws, hbr]
+  have := mkField_shift 0 s e f.label w.str f.name f.number raws more [] hm rfl
+  simp only [Nat.zero_add] at this
+  congr 1
+  apply Prod.ext
+  · unfold rdField rdField0
+    rw [hrd, hty, ← this]
+  · rfl
+
 mutual
 /-- messages (nested), enums, oneofs, fields, enum values; no options, no comments -/
 def SimpleItem : Item → Prop
-  | .field f => SimpleField f ∨ MapField f
+  | .field f => SimpleField f ∨ MapField f ∨ OptField f
   | .rpc _ _ _ _ _ _ => False
   | .block kw t l _ name os ks =>
     l.noComments ∧ os = [] ∧ IsIdent name ∧
@@ -173,7 +316,9 @@ def lineLoc (s e : Nat) : Loc := ⟨s, e, [], "", ""⟩
 mutual
 /-- the element that starts on line `s`, and the line after it -/
 def rdItem : Item → Nat → Item × Nat
-  | .field f, s => (.field { f with loc := lineLoc s s, index := 0 }, s + 1)
+  | .field f, s =>
+    if f.popts.isEmpty then (.field { f with loc := lineLoc s s, index := 0 }, s + 1)
+    else (.field (rdField f s), s + (fieldLines 0 f).length)
   | .rpc _ _ a b c _, s => (.rpc (lineLoc s s) 0 a b c [], s + 1)
   | .block kw t _ _ name _ kids, s =>
     if kids.isEmpty then (.block kw t (lineLoc s s) 0 name [] [], s + 1)
@@ -258,7 +403,7 @@ theorem exec_gapIf (c g : Bool) : exec (if c then [Cmd.gap] else []) g = ([], g 
 mutual
 /-- the shape the layout lemmas need: no options, no comments, no methods -/
 def Plain : Item → Prop
-  | .field f => SimpleField f ∨ SimpleValue f ∨ MapField f
+  | .field f => SimpleField f ∨ SimpleValue f ∨ MapField f ∨ OptField f
   | .rpc l _ _ _ _ os => l.noComments ∧ os = []
   | .block _ _ l _ _ os ks => l.noComments ∧ os = [] ∧ PlainList ks
 def PlainList : List Item → Prop
@@ -270,9 +415,10 @@ mutual
 theorem SimpleItem.plain : ∀ e, SimpleItem e → Plain e
   | .field _, h => by
     simp only [SimpleItem] at h
-    rcases h with h | h
+    rcases h with h | h | h
     · exact Or.inl h
-    · exact Or.inr (Or.inr h)
+    · exact Or.inr (Or.inr (Or.inl h))
+    · exact Or.inr (Or.inr (Or.inr h))
   | .rpc _ _ _ _ _ _, h => h.elim
   | .block _ _ _ _ _ _ ks, h => by
     simp only [SimpleItem] at h
@@ -305,10 +451,11 @@ end
 
 theorem Plain.loc : ∀ e, Plain e → e.loc.noComments
   | .field f, h => by
-    rcases h with h | h | h
+    rcases h with h | h | h | h
     · exact h.2.1
     · exact h.2.1
     · exact h.2.1
+    · exact h.loc
   | .rpc _ _ _ _ _ _, h => h.1
   | .block _ _ _ _ _ _ _, h => h.1
 
@@ -325,6 +472,61 @@ theorem fieldCmds_leaf (n : Nat) (f : FieldD) (h : SimpleField f ∨ SimpleValue
   · rw [fieldCmds_value n f h]; simp [leafLine, h.1]
   · rw [fieldCmds_map n f h]; simp [leafLine, h.1]
 
+/-- a field on one line -/
+def Leaf (f : FieldD) : Prop := SimpleField f ∨ SimpleValue f ∨ MapField f
+
+theorem Leaf.popts {f : FieldD} (h : Leaf f) : f.popts = [] := by
+  rcases h with h | h | h
+  · exact popts_simple f h.2.2.1 (Or.inr h.2.2.2.2.2.1)
+  · exact popts_simple f h.2.2.1 (Or.inl h.2.2.2.2.2.2.2)
+  · exact popts_simple f h.2.2.1 (Or.inr h.2.2.2.2.2.1)
+
+theorem rdItem_leaf {f : FieldD} (h : Leaf f) (s : Nat) :
+    rdItem (.field f) s = (.field { f with loc := lineLoc s s, index := 0 }, s + 1) := by
+  simp [rdItem, h.popts]
+
+/-! ### the lines of a field with options -/
+
+theorem fieldLines_ind (n : Nat) (f : FieldD) : fieldLines n f = (fieldLines 0 f).map (ind n) :=
+  fieldStyle_ind n f.head (formatInt f.number) f.popts
+
+theorem lineToks_ind (n : Nat) (s : String) (l : Nat) : lineToks (ind n s) l = lineToks s l := by
+  unfold lineToks ind
+  rw [String.toList_append, String.toList_ofList, lexL_spaces]
+
+theorem lexLines_ind (n : Nat) : ∀ (ls : List String) (l : Nat), lexLines (ls.map (ind n)) l = lexLines ls l
+  | [], _ => rfl
+  | x :: r, l => by simp only [List.map_cons, lexLines, lineToks_ind, lexLines_ind n r]
+
+theorem lexLines_shift (k : Nat) : ∀ (ls : List String) (l : Nat), lexLines ls (l + k) = sh k (lexLines ls l)
+  | [], _ => rfl
+  | x :: r, l => by
+    simp only [lexLines, sh_append, lineToks_shift]
+    rw [show l + k + 1 = (l + 1) + k by omega, lexLines_shift k r (l + 1)]
+
+theorem fieldCmds_lines (n : Nat) (f : FieldD) (h : f.loc.noComments) :
+    fieldCmds n f = (fieldLines n f).map Cmd.line := by
+  unfold fieldCmds fieldLines
+  rw [leadingCmds_noComments n h, trailingCmds_noComments n h, inlineComment_noComments h]
+  simp
+
+/-- what a run of `line` commands writes -/
+theorem exec_lines_map : ∀ (ls : List String) (g : Bool), ls ≠ [] →
+    (exec (ls.map Cmd.line) g).1 = (if g then [""] else []) ++ ls ∧ (exec (ls.map Cmd.line) g).2 = false
+  | [], _, h => (h rfl).elim
+  | [x], g, _ => by cases g <;> simp [exec]
+  | x :: y :: r, g, _ => by
+    have ih := exec_lines_map (y :: r) false (by simp)
+    simp only [List.map_cons, Bool.false_eq_true, if_false, List.nil_append] at ih ⊢
+    rw [exec, ih.1, ih.2]
+    cases g <;> simp
+
+theorem fieldLines_ne (n : Nat) (f : FieldD) : fieldLines n f ≠ [] := by
+  unfold fieldLines fieldStyle
+  split
+  · simp
+  · split <;> simp
+
 /-- the line of a method without options -/
 def rpcLine (n : Nat) (name inT outT : String) : String :=
   ind n ("rpc " ++ name ++ "(" ++ inT ++ ") returns (" ++ outT ++ ")" ++ " {}" ++ "")
@@ -338,7 +540,7 @@ theorem rpcCmds_plain (n : Nat) (l : Loc) (i : Nat) (name inT outT : String) (hl
 
 /-- the tokens of an element that starts on line `s` -/
 def itemToks (n : Nat) : Item → Nat → List PTok
-  | .field f, s => lineToks (leafLine n f) s
+  | .field f, s => if f.popts.isEmpty then lineToks (leafLine n f) s else sh s (fieldToks0 f)
   | .rpc _ _ name inT outT _, s => lineToks (rpcLine n name inT outT) s
   | .block kw _ _ _ name _ kids, s =>
     if kids.isEmpty then lineToks (ind n (kw ++ " " ++ name ++ " {}")) s
@@ -359,10 +561,42 @@ theorem lay_item : ∀ (e : Item), Plain e → ∀ (n : Nat) (g : Bool) (L : Nat
     L + nLines (itemCmds n e) g = (rdItem e (startLine g L)).2 ∧
     (exec (itemCmds n e) g).2 = e.gapEnder
   | .field f, h, n, g, L => by
-    simp only [itemCmds, fieldCmds_leaf n f h, itemToks, rdItem, Item.gapEnder, toksOf_line, startLine]
-    refine ⟨trivial, ?_, ?_⟩
-    · cases g <;> simp [nLines, exec]
-    · cases g <;> simp [exec]
+    simp only [Plain] at h
+    by_cases hp : f.popts = []
+    · have hleaf : Leaf f := by
+        rcases h with h | h | h | h
+        · exact Or.inl h
+        · exact Or.inr (Or.inl h)
+        · exact Or.inr (Or.inr h)
+        · exact absurd hp h.nonempty
+      have hpe : f.popts.isEmpty = true := by simp [hp]
+      simp only [itemCmds, fieldCmds_leaf n f hleaf, itemToks, rdItem, hpe, if_true, Item.gapEnder, toksOf_line, startLine]
+      refine ⟨trivial, ?_, ?_⟩
+      · cases g <;> simp [nLines, exec]
+      · cases g <;> simp [exec]
+    · have ho : OptField f := by
+        rcases h with h | h | h | h
+        · exact absurd (Leaf.popts (Or.inl h)) hp
+        · exact absurd (Leaf.popts (Or.inr (Or.inl h))) hp
+        · exact absurd (Leaf.popts (Or.inr (Or.inr h))) hp
+        · exact h
+      have hpe : f.popts.isEmpty = false := by simpa using hp
+      simp only [itemCmds, itemToks, rdItem, hpe, Bool.false_eq_true, if_false, Item.gapEnder]
+      rw [fieldCmds_lines n f ho.loc, fieldLines_ind n f]
+      obtain ⟨e1, e2⟩ := exec_lines_map ((fieldLines 0 f).map (ind n)) g (by simp [fieldLines_ne])
+      refine ⟨?_, ?_, e2⟩
+      · unfold toksOf fieldToks0
+        rw [e1]
+        cases g with
+        | false =>
+          simp only [Bool.false_eq_true, if_false, List.nil_append, startLine, lexLines_ind]
+          rw [← lexLines_shift, Nat.zero_add]
+        | true =>
+          simp only [if_true, List.cons_append, List.nil_append, startLine, lexLines, lineToks_blank, lexLines_ind]
+          rw [← lexLines_shift, Nat.zero_add]
+      · unfold nLines
+        rw [e1]
+        cases g <;> simp [startLine] <;> omega
   | .rpc l i name inT outT os, h, n, g, L => by
     simp only [Plain] at h
     obtain ⟨hl, ho⟩ := h
@@ -501,11 +735,12 @@ theorem enumBody_values : ∀ (es : List Item), SimpleValues es →
     simp [elemsCmds, toksOf_nil, rdKids, fieldsOf]
   | .field f :: r, h, n, first, le0, lt, L, g, F, os, vs, rest, hr => by
     simp only [SimpleValues] at h
+    have hpe : f.popts.isEmpty = true := by simp [Leaf.popts (Or.inr (Or.inl h.1))]
     rw [toksOf_elems_cons n (.field f) r first le0 lt g L (Or.inr (Or.inl h.1))]
-    simp only [itemToks, leafLine, h.1.1, List.length_cons, List.append_assoc]
+    simp only [itemToks, hpe, if_true, leafLine, h.1.1, List.length_cons, List.append_assoc]
     rw [← Nat.add_assoc, enumBody_value (F + r.length) f h.1 n _ _ (trailOf_toksOf _ _ _ _ hr)]
     rw [enumBody_values r h.2 n false _ _ _ _ F os _ rest hr]
-    simp only [rdKids, rdItem, fieldsOf, List.append_assoc, List.cons_append, List.nil_append, Item.typeOrder,
+    simp only [rdKids, rdItem, hpe, if_true, fieldsOf, List.append_assoc, List.cons_append, List.nil_append, Item.typeOrder,
       Item.gapEnder, startLine, gapBefore]
     rfl
   | .rpc _ _ _ _ _ _ :: _, h, _, _, _, _, _, _, _, _, _, _, _ => by simp [SimpleValues] at h
@@ -516,7 +751,8 @@ theorem rdKids_values : ∀ (es : List Item), SimpleValues es → ∀ (first : B
   | [], _, _, _, _, _, _ => by simp [rdKids, fieldsOf]
   | .field f :: r, h, first, le0, lt, L, g => by
     simp only [SimpleValues] at h
-    simp only [rdKids, rdItem, fieldsOf, List.map_cons]
+    have hpe : f.popts.isEmpty = true := by simp [Leaf.popts (Or.inr (Or.inl h.1))]
+    simp only [rdKids, rdItem, hpe, if_true, fieldsOf, List.map_cons]
     congr 1
     exact rdKids_values r h.2 _ _ _ _ _
   | .rpc _ _ _ _ _ _ :: _, h, _, _, _, _, _ => by simp [SimpleValues] at h
@@ -534,7 +770,8 @@ theorem rdKids_members : ∀ (es : List Item), SimpleMembers es → ∀ (first :
   | [], _, _, _, _, _, _ => by simp [rdKids, fieldsOf]
   | .field f :: r, h, first, le0, lt, L, g => by
     simp only [SimpleMembers] at h
-    simp only [rdKids, rdItem, fieldsOf, List.map_cons]
+    have hpe : f.popts.isEmpty = true := by simp [Leaf.popts (Or.inl h.1.1)]
+    simp only [rdKids, rdItem, hpe, if_true, fieldsOf, List.map_cons]
     congr 1
     exact rdKids_members r h.2 _ _ _ _ _
   | .rpc _ _ _ _ _ _ :: _, h, _, _, _, _, _ => by simp [SimpleMembers] at h
@@ -543,7 +780,9 @@ theorem rdKids_members : ∀ (es : List Item), SimpleMembers es → ∀ (first :
 theorem rdKids_members_ne : ∀ (es : List Item), SimpleMembers es → es ≠ [] → ∀ (first : Bool) (le0 lt L : Nat) (g : Bool),
     fieldsOf (rdKids es first le0 lt L g).1 ≠ []
   | [], _, h, _, _, _, _, _ => (h rfl).elim
-  | .field f :: r, _, _, first, le0, lt, L, g => by simp [rdKids, rdItem, fieldsOf]
+  | .field f :: r, _, _, first, le0, lt, L, g => by
+    simp only [rdKids, rdItem]
+    split <;> simp [fieldsOf]
   | .rpc _ _ _ _ _ _ :: _, h, _, _, _, _, _, _ => by simp [SimpleMembers] at h
   | .block _ _ _ _ _ _ _ :: _, h, _, _, _, _, _, _ => by simp [SimpleMembers] at h
 
@@ -648,6 +887,51 @@ theorem messageBody_mapfield (F : Nat) (f : FieldD) (h : MapField f) (n s : Nat)
   subst hk hty hj ho hlab
   rfl
 
+theorem headToks_start (f : FieldD) (w : TyW) (hlab : f.label = "" ∨ f.label = "repeated " ∨ f.label = "optional ")
+    (hw : w.ok f.label) (s : Nat) :
+    ∃ t tl, headToks f w s = ⟨t, s, Cm.none⟩ :: tl ∧ FieldStart t := by
+  unfold headToks
+  rcases hlab with h | h | h
+  · rw [h] at hw ⊢
+    have e : labelToks "" s = [] := by simp [labelToks]
+    rw [e, List.nil_append]
+    cases w with
+    | plain a fi r =>
+      cases a with
+      | true =>
+        simp only [TyW.toks, tyToks, if_true, List.cons_append, List.nil_append, T]
+        exact ⟨_, _, rfl, Or.inl ⟨'.', rfl, by decide⟩⟩
+      | false =>
+        obtain ⟨_, _, h3, h4, h5, h6⟩ := hw.2.2.2 rfl rfl
+        simp only [TyW.toks, tyToks, Bool.false_eq_true, if_false, List.cons_append, List.nil_append, T]
+        exact ⟨_, _, rfl, Or.inr ⟨fi, rfl, h3, h4, h5, h6⟩⟩
+    | map k a fi r =>
+      simp only [TyW.toks, List.cons_append, T]
+      exact ⟨_, _, rfl, Or.inr ⟨"map", rfl, by decide, by decide, by decide, by decide⟩⟩
+  · rw [h]
+    have e : labelToks "repeated " s = [T (.ident "repeated") s] := by simp [labelToks]
+    rw [e]
+    simp only [List.cons_append, List.nil_append, T]
+    exact ⟨_, _, rfl, Or.inr ⟨"repeated", rfl, by decide, by decide, by decide, by decide⟩⟩
+  · rw [h]
+    have e : labelToks "optional " s = [T (.ident "optional") s] := by simp [labelToks]
+    rw [e]
+    simp only [List.cons_append, List.nil_append, T]
+    exact ⟨_, _, rfl, Or.inr ⟨"optional", rfl, by decide, by decide, by decide, by decide⟩⟩
+
+/-- a field with options in a message body -/
+theorem messageBody_optfield (F : Nat) (f : FieldD) (h : OptField f) (s : Nat) (more : List PTok)
+    (hm : trailOf more = "") (os : List RawOpt) (ks : List Item) :
+    messageBody (F + 1) (sh s (fieldToks0 f) ++ more) os ks =
+      messageBody F more os (ks ++ [.field (rdField f s)]) := by
+  have hparse := optField_parse f h s more hm
+  obtain ⟨w, raws, e, c, hw, hty, htoks, hbr, _⟩ := h.read
+  obtain ⟨t, tl, hhead, hstart⟩ := headToks_start f w h.lab hw s
+  have hsh : sh s (fieldToks0 f) = ⟨t, s, Cm.none⟩ :: (tl ++ sh s (rdBody f)) := by
+    rw [htoks, sh_append, sh_headToks, Nat.zero_add, hhead]; rfl
+  rw [hsh, List.cons_append] at hparse ⊢
+  rw [messageBody_default F t s Cm.none _ hstart, hparse]
+
 theorem messageBody_msg_step (F : Nat) (name : String) (s : Nat) (r : List PTok) (os : List RawOpt) (ks : List Item) :
     messageBody (F + 1) (T (.ident "message") s :: T (.ident name) s :: T (.sym '{') s :: r) os ks =
       match messageBody F r [] [] with
@@ -720,11 +1004,12 @@ theorem oneofBody_members : ∀ (es : List Item), SimpleMembers es →
     simp [elemsCmds, toksOf_nil, rdKids, fieldsOf]
   | .field f :: r, h, n, first, le0, lt, L, g, F, os, fs, rest, hr => by
     simp only [SimpleMembers] at h
+    have hpe : f.popts.isEmpty = true := by simp [Leaf.popts (Or.inl h.1.1)]
     rw [toksOf_elems_cons n (.field f) r first le0 lt g L (Or.inl h.1.1)]
-    simp only [itemToks, leafLine, h.1.1.1, List.length_cons, List.append_assoc]
+    simp only [itemToks, hpe, if_true, leafLine, h.1.1.1, List.length_cons, List.append_assoc]
     rw [← Nat.add_assoc, oneofBody_field (F + r.length) f h.1.1 n _ _ (trailOf_toksOf _ _ _ _ hr)]
     rw [oneofBody_members r h.2 n false _ _ _ _ F os _ rest hr]
-    simp only [rdKids, rdItem, fieldsOf, List.append_assoc, List.cons_append, List.nil_append, Item.typeOrder,
+    simp only [rdKids, rdItem, hpe, if_true, fieldsOf, List.append_assoc, List.cons_append, List.nil_append, Item.typeOrder,
       Item.gapEnder, startLine, gapBefore]
     rfl
   | .rpc _ _ _ _ _ _ :: _, h, _, _, _, _, _, _, _, _, _, _, _ => by simp [SimpleMembers] at h
@@ -767,13 +1052,18 @@ theorem mb_item : ∀ (e : Item), SimpleItem e → ∀ (n s G : Nat) (os : List 
     messageBody (G + 1) (itemToks n e s ++ more) os ks = messageBody G more os (ks ++ [(rdItem e s).1])
   | .field f, h, n, s, G, os, ks, more, hm, _ => by
     simp only [SimpleItem] at h
-    rcases h with h | h
+    rcases h with h | h | h
     · have hleaf : leafLine n f = fieldLine n f := by simp [leafLine, h.1]
-      simp only [itemToks, rdItem, hleaf]
+      have hpe : f.popts.isEmpty = true := by simp [Leaf.popts (Or.inl h)]
+      simp only [itemToks, rdItem, hpe, if_true, hleaf]
       exact messageBody_field G f h n s more hm os ks
     · have hleaf : leafLine n f = fieldLine n f := by simp [leafLine, h.1]
-      simp only [itemToks, rdItem, hleaf]
+      have hpe : f.popts.isEmpty = true := by simp [Leaf.popts (Or.inr (Or.inr h))]
+      simp only [itemToks, rdItem, hpe, if_true, hleaf]
       exact messageBody_mapfield G f h n s more hm os ks
+    · have hpe : f.popts.isEmpty = false := by simpa using h.nonempty
+      simp only [itemToks, rdItem, hpe, Bool.false_eq_true, if_false]
+      exact messageBody_optfield G f h s more hm os ks
   | .rpc _ _ _ _ _ _, h, _, _, _, _, _, _, _, _ => h.elim
   | .block kw t l i name opts kids, h, n, s, G, os, ks, more, hm, hG => by
     simp only [SimpleItem] at h
@@ -889,10 +1179,50 @@ theorem fieldOk_rd (f : FieldD) (h : SimpleField f ∨ SimpleValue f ∨ MapFiel
     simp only [ho] at ho'
     simp at ho'
 
+theorem optOk_shO {o o' : SOpt} (k : Nat) (h : optOk o o') : optOk o (shO k o') := by
+  obtain ⟨h1, h2, h3⟩ := h
+  exact ⟨by rw [shO_name]; exact h1, by rw [shO_stmts]; exact h2, fun v hv hi => by rw [shO_single]; exact h3 v hv hi⟩
+
+theorem fieldOk_shF {f f' : FieldD} (k : Nat) (h : fieldOk f f') : fieldOk f (shF k f') := by
+  obtain ⟨h1, h2, h3, h4, h5, h6, h7, h8, h9, h10⟩ := h
+  refine ⟨h1, h2, h3, h4, h5, h6, h7, by simp [shF, h8], ?_, ?_⟩
+  · intro p hp
+    simp only [shF, List.zip_map_right, List.mem_map] at hp
+    obtain ⟨q, hq, rfl⟩ := hp
+    exact optOk_shO k (h9 q hq)
+  · intro p hp hi o' ho'
+    simp only [shF, List.mem_map] at ho'
+    obtain ⟨o, ho, rfl⟩ := ho'
+    rw [shO_inl]
+    exact h10 p hp hi o ho
+
+theorem rdField_loc (f : FieldD) (h : OptField f) (s : Nat) :
+    (rdField f s).loc.startLine = s ∧ (rdField f s).loc.endLine + 1 = s + (fieldLines 0 f).length := by
+  obtain ⟨w, raws, e, c, _, _, _, hbr, he⟩ := h.read
+  have hrd : rdRaws f = (raws, e) := by simp only [rdRaws, hbr]
+  simp only [rdField, shF, rdField0, mkField, mkLoc, hrd]
+  omega
+
 mutual
 theorem rdItem_mono : ∀ (e : Item) (s : Nat), Plain e → s < (rdItem e s).2 ∧
     (rdItem e s).1.loc.startLine = s ∧ (rdItem e s).1.loc.endLine + 1 = (rdItem e s).2
-  | .field f, s, _ => by simp [rdItem, Item.loc, lineLoc]
+  | .field f, s, h => by
+    simp only [Plain] at h
+    simp only [rdItem]
+    split
+    · simp [Item.loc, lineLoc]
+    · rename_i hp
+      have ho : OptField f := by
+        rcases h with h | h | h | h
+        · exact absurd (by simp [Leaf.popts (Or.inl h)]) hp
+        · exact absurd (by simp [Leaf.popts (Or.inr (Or.inl h))]) hp
+        · exact absurd (by simp [Leaf.popts (Or.inr (Or.inr h))]) hp
+        · exact h
+      have := rdField_loc f ho s
+      have hne := fieldLines_ne 0 f
+      have hlen : 0 < (fieldLines 0 f).length := List.length_pos_iff.mpr hne
+      simp only [Item.loc]
+      omega
   | .rpc _ _ _ _ _ _, s, _ => by simp [rdItem, Item.loc, lineLoc]
   | .block kw t l i name os kids, s, h => by
     simp only [Plain] at h
@@ -918,8 +1248,26 @@ mutual
 theorem relaid_rdItem : ∀ (e : Item) (s : Nat), Plain e → relaid e (rdItem e s).1
   | .field f, s, h => by
     simp only [Plain] at h
-    simp only [rdItem, relaid]
-    exact fieldOk_rd f h s
+    simp only [rdItem]
+    split
+    · rename_i hp
+      simp only [relaid]
+      have hpo : f.popts = [] := by simpa using hp
+      refine fieldOk_rd f ?_ s
+      rcases h with h | h | h | h
+      · exact Or.inl h
+      · exact Or.inr (Or.inl h)
+      · exact Or.inr (Or.inr h)
+      · exact absurd hpo h.nonempty
+    · rename_i hp
+      simp only [relaid]
+      have ho : OptField f := by
+        rcases h with h | h | h | h
+        · exact absurd (by simp [Leaf.popts (Or.inl h)]) hp
+        · exact absurd (by simp [Leaf.popts (Or.inr (Or.inl h))]) hp
+        · exact absurd (by simp [Leaf.popts (Or.inr (Or.inr h))]) hp
+        · exact h
+      exact fieldOk_shF s ho.ok
   | .rpc l i name inT outT os, s, h => by
     simp only [Plain] at h
     obtain ⟨_, ho⟩ := h
